@@ -946,6 +946,12 @@ Section Basic.
     In x (colf (r_cols (earley_parse G start toks)) k) \/ In x (colf (r_scans (earley_parse G start toks)) k).
   Proof. apply (alg_complete G (Analysis.predictions G) nat Nat.eqb start toks ps pd). Qed.
 
+  Theorem earley_trace_is_chart k x :
+    k < length (r_cols (earley_parse G start toks)) ->
+    (In x (colf (r_cols (earley_parse G start toks)) k) \/ In x (colf (r_scans (earley_parse G start toks)) k)
+     <-> chart G nat Nat.eqb toks start k x).
+  Proof. intros Hk. split; [apply earley_alg_sound|intros H; apply earley_alg_complete; auto]. Qed.
+
   Theorem earley_fuel_suffices i : r_out (earley_parse G start toks) <> OutOfFuel i.
   Proof. apply (fuel_suffices G (Analysis.predictions G) nat Nat.eqb start toks ps pd). Qed.
 
@@ -957,3 +963,13 @@ Section Basic.
     apply accepts_iff_sentence.
   Qed.
 End Basic.
+
+(* the same for any token type, matcher and prediction table between "the rules of a" and "the rules
+   reachable from a through first symbols" (e.g. no pre-computed closure at all) *)
+Theorem accepts_iff_sentence_gen G predictions tok tmatch start w :
+  (forall a r, In r (predictions a) -> In r G /\ lc_reach G a (lhs r)) ->
+  (forall a r, In r G -> lhs r = a -> In r (predictions a)) ->
+  (accepts G predictions tok tmatch start w = true <-> derives G tok tmatch [NT start] w).
+Proof.
+  intros ps pd. rewrite (accepts_iff_spec G predictions tok tmatch start w ps pd). apply accepts_iff_sentence.
+Qed.
